@@ -318,6 +318,11 @@ func genVal(r *Rng, c ATCol) ATVal {
 		return ATVal{K: 'N'}
 	}
 	if c.Typ == 'i' {
+		if r.Chance(12) {
+			// large magnitudes with tiny differences (timestamps, ids, int32 boundary); all below 2^53
+			base := []int64{1700000000, 2147483640, 1000000000000, 4503599627370000}[r.Intn(4)]
+			return ATVal{K: 'i', I: base + int64(r.Intn(8))}
+		}
 		return ATVal{K: 'i', I: int64(r.Intn(12))}
 	}
 	return ATVal{K: 's', S: atStrings[r.Intn(len(atStrings))]}
